@@ -90,7 +90,39 @@ SITES = {
 # the exempt site: inside Pos's own methods construction is raw (used by the hook itself); nothing to assert beyond "builds"
 
 
+DEPMOD_SITES = ["depmod_function_importer_first", "depmod_function_newtype_first", "depmod_method_importer_first", "depmod_method_newtype_first", "depmod_function_only_importer_imported"]
+
+
+def depmod_program(under, hook, site, arg_kind):
+    """The construction happens inside a dependency module (`midmod`) that imports the newtype from another dependency
+    module (`ntmod`); the entry file imports the two modules in either order (the order decides the order in which the
+    compiler meets the modules)."""
+    u = UNDER[under]
+    d, validated = decl(under, hook)
+    x, t = u[arg_kind], u["ty"]
+    showp = u["show"].replace("{V}", "p")
+    # the value is unwrapped inside the dependency module: a function of one module returning a type of a module the
+    # checker meets later is typed as an unknown type variable there (a false rejection, outside this property)
+    if "_function_" in site:
+        mid = f"from ntmod import Pos\n\n\npub def make_show(x: {t}) -> {t}:\n    p = Pos(x)\n    return {showp}\n"
+        imp_mid, call = "from midmod import make_show", f"v = make_show({x})"
+    else:
+        mid = f"from ntmod import Pos\n\n\npub class Factory:\n    pub k: int\n\n    def build_show(self, x: {t}) -> {t}:\n        p = Pos(x)\n        return {showp}\n"
+        imp_mid, call = "from midmod import Factory", f"f = Factory(k=1)\n    v = f.build_show({x})"
+    imp_nt = "from ntmod import Pos"
+    if site.endswith("only_importer_imported"):
+        imports = imp_mid
+    elif site.endswith("importer_first"):
+        imports = imp_mid + "\n" + imp_nt
+    else:
+        imports = imp_nt + "\n" + imp_mid
+    main = f'{imports}\n\n\ndef main() -> None:\n    println("before")\n    {call}\n    println(v)\n    println("after")\n'
+    return {"ntmod.incn": "pub " + d, "midmod.incn": mid, "prog.incn": main}, validated
+
+
 def program(under, hook, site, arg_kind, use_first=False):
+    if site.startswith("depmod_"):
+        return depmod_program(under, hook, site, arg_kind)
     u = UNDER[under]
     d, validated = decl(under, hook)
     imported = site.startswith("imported_")
@@ -157,8 +189,8 @@ def run(tier):
     cases = []
     for under in UNDER:
         for hook in hooks:
-            for site in list(SITES) + ["imported_let", "imported_argument", "imported_other_type_method", "imported_alias_let", "imported_alias_argument", "imported_alias_model_field"]:
-                if site.startswith("imported_") and (under != "int" or hook not in ("from_underlying", "none")):
+            for site in list(SITES) + ["imported_let", "imported_argument", "imported_other_type_method", "imported_alias_let", "imported_alias_argument", "imported_alias_model_field"] + DEPMOD_SITES:
+                if site.startswith(("imported_", "depmod_")) and (under != "int" or hook not in ("from_underlying", "none")):
                     continue
                 if not thorough and under != "int" and site not in ("let", "argument", "model_field", "other_type_method"):
                     continue
@@ -243,7 +275,7 @@ def run(tier):
         "evaluations": len(cases) + 2 * len(mixes),
         "distinct_nontrivial": len(sig_ok),
         "rule": "underlying type (int, str, float) x hook kind (none, from_underlying, single from_<type>, hook + other method, two from_* = no hook selected, and the single from_<type> next to each kind of sibling that does not have the hook's shape: two-parameter from_*, from_* over another type, from_* returning the bare type, instance from_*, static non-from method, parameterless from_*; from_underlying next to another well-shaped from_*) x 19 construction sites (each also with the newtype declared after its uses) "
-        "sites + 6 sites where the newtype is imported from another module (3 of them under an alias) (let, annotated/mut let, argument, return, model field, list element, nested call, another type's method, trait impl / default method, if / for / match blocks, "
+        "sites + 6 sites where the newtype is imported from another module (3 of them under an alias) + 5 sites where a dependency module constructs a newtype imported from another dependency module (function / method, entry file importing the two modules in either order or only the constructing one) (let, annotated/mut let, argument, return, model field, list element, nested call, another type's method, trait impl / default method, if / for / match blocks, "
         "closure, comprehension, Some(..), helper function, second construction; argument given as a variable, a call result, the payload of another newtype - local or parameter -, a model field) x argument class (accepted, rejected, boundary); quick restricts the product as stated in the code; "
         "plus 8 mixing positions for two newtypes over int (with accepted twins); non-trivial = distinct signatures that built, ran and satisfied the oracle",
         "samples": [{"sig": list(c[0]), "files": c[1]} for c in common.pick_samples(cases)],
